@@ -613,6 +613,31 @@ class Repo:
         self._mro_cache[key] = out
         return out
 
+    def module_sequences(self, module):
+        """name -> tuple / list display, for names bound exactly once, at module level, to a
+        display of at most 8 elements that nothing in the module mutates"""
+        key = ('mseqs', module)
+        if key in self._mro_cache:
+            return self._mro_cache[key]
+        tree = self.modules[module]['tree']
+        out, stores = {}, {}
+        for n in ast.walk(tree):
+            if isinstance(n, ast.Name) and isinstance(n.ctx, (ast.Store, ast.Del)):
+                stores[n.id] = stores.get(n.id, 0) + 1
+        for st in tree.body:
+            if isinstance(st, ast.Assign) and len(st.targets) == 1 and isinstance(st.targets[0], ast.Name) and isinstance(st.value, (ast.Tuple, ast.List)) \
+                    and 0 < len(st.value.elts) <= 8 and not any(isinstance(x, ast.Starred) for x in st.value.elts) and stores.get(st.targets[0].id) == 1:
+                out[st.targets[0].id] = st.value
+        for n in ast.walk(tree):
+            if isinstance(n, ast.Subscript) and isinstance(n.value, ast.Name) and n.value.id in out and isinstance(n.ctx, (ast.Store, ast.Del)):
+                out.pop(n.value.id, None)
+            elif isinstance(n, ast.Attribute) and isinstance(n.value, ast.Name) and n.value.id in out and n.attr not in ('index', 'count', '__contains__', '__getitem__', '__iter__', '__len__'):
+                out.pop(n.value.id, None)
+            elif isinstance(n, ast.AugAssign) and isinstance(n.target, ast.Name) and n.target.id in out:
+                out.pop(n.target.id, None)
+        self._mro_cache[key] = out
+        return out
+
     def class_tables(self, ci):
         """attr -> dict display, for class-level ``attr = {constant keys: ...}`` (through the MRO)
         that nothing in the package stores or mutates"""
@@ -772,6 +797,7 @@ class Repo:
         w.class_constant = self.class_constant
         w.module_tables = self.module_tables
         w.class_tables = self.class_tables
+        w.module_sequences = self.module_sequences
         w.records = self.records()
         w.split_ifexp = split_ifexp
         return w
